@@ -51,6 +51,7 @@ type Clause struct {
 type LoopSpec struct {
 	Invs []Clause
 	Decr SExpr
+	Iter []Clause // iteration[label] expr: holds at the END of every iteration; old() = the state at its START; the body's locals are in scope
 }
 
 type FuncSpec struct {
@@ -784,6 +785,9 @@ func (ss *SpecSet) ParseSpecFile(file, pkgPath string) (err error) {
 			if strings.HasPrefix(r, "invariant") {
 				lab, body := splitLabel(strings.TrimPrefix(r, "invariant"))
 				ls.Invs = append(ls.Invs, Clause{lab, mustExpr(file, lno, body), body})
+			} else if strings.HasPrefix(r, "iteration") {
+				lab, body := splitLabel(strings.TrimPrefix(r, "iteration"))
+				ls.Iter = append(ls.Iter, Clause{lab, mustExpr(file, lno, body), body})
 			} else if strings.HasPrefix(r, "decreases") {
 				ls.Decr = mustExpr(file, lno, strings.TrimPrefix(r, "decreases"))
 			} else {
